@@ -13,6 +13,7 @@ package keeper
 //@ func (Keeper) IsFinalized
 //@   let b := bridgeId
 //@   ensures err == nil ==> OutputProposals[(b, outputIndex)] != None && BridgeConfigs[b] != None                                     // C05: output_and_bridge_exist
+//@   ensures OutputProposals[(b, outputIndex)] != None && BridgeConfigs[b] != None ==> err == nil                                     // C04,C05: decided_for_every_stored_output
 //@   ensures err == nil ==> ret0 == isFinal(now, val(OutputProposals[(b, outputIndex)]).L1BlockTime, val(BridgeConfigs[b]).FinalizationPeriod)   // C05: window
 //@   assigns \nothing
 
@@ -104,6 +105,7 @@ package keeper
 //@   assigns OutputProposals[(b, *)], NextOutputIndexes[b], events
 
 //@ func (MsgServer) FinalizeTokenWithdrawal
+//@   opt send_succeeds_if_funded
 //@   let b := req.BridgeId
 //@   let d := req.Amount.Denom
 //@   let a := req.Amount.Amount
@@ -119,6 +121,13 @@ package keeper
 //@        && o.OutputRoot == outputRoot(bat(req.Version, 0), req.StorageRoot, req.LastBlockHash)          // C03: output_root_matches
 //@   ensures err == nil ==> foldNode(h, arr(req.WithdrawalProofs), len(req.WithdrawalProofs)) == req.StorageRoot   // C03: proof_folds_to_storage_root
 //@   ensures err == nil ==> a > 0 && a < 18446744073709551616 && addrOK(1, req.To) && len(req.From) > 0 && validDenom(d)   // C04: validated
+//@   ensures addrOK(1, req.Sender) && addrOK(1, req.To) && len(req.From) > 0 && validDenom(d) && a > 0 && a < 18446744073709551616
+//@        && req.Sequence != 0 && b != 0 && req.OutputIndex != 0 && len(req.Version) == 1 && len(req.StorageRoot) == 32 && len(req.LastBlockHash) == 32
+//@        && (forall j int :: 0 <= j && j < len(req.WithdrawalProofs) ==> len(req.WithdrawalProofs[j]) == 32)
+//@        && old(BridgeConfigs)[b] != None && old(OutputProposals)[(b, req.OutputIndex)] != None && isFinal(now, o.L1BlockTime, cfg.FinalizationPeriod)
+//@        && o.OutputRoot == outputRoot(bat(req.Version, 0), req.StorageRoot, req.LastBlockHash)
+//@        && foldNode(h, arr(req.WithdrawalProofs), len(req.WithdrawalProofs)) == req.StorageRoot
+//@        && old(ProvenWithdrawals)[(b, h)] == None && old(bank.bal)[(bridgeAddr(b), d)] >= a ==> err == nil                 // C04: every_committed_unclaimed_withdrawal_is_claimable
 //@   emits err == nil ==> ev("finalize_token_withdrawal", "bridge_id", fmtU64(b), "output_index", fmtU64(req.OutputIndex), "l2_sequence", fmtU64(req.Sequence),
 //@        "from", req.From, "to", req.To, "l1_denom", d, "l2_denom", l2denom(b, d), "amount", intStr(a))                   // C02: event
 //@   assigns ProvenWithdrawals[(b, h)], bank.bal[(bridgeAddr(b), d)], bank.bal[(to, d)], events
